@@ -95,4 +95,13 @@ def main(argv):
 
 
 if __name__ == "__main__":
-    sys.exit(main(sys.argv[1:]))
+    try:
+        rc = main(sys.argv[1:])
+    except SystemExit:
+        raise
+    except BaseException:      # noqa - an exception of the machinery is never a verdict on the system
+        import traceback
+        traceback.print_exc()
+        print("MACHINERY FAILURE (uncaught exception)")
+        rc = 2
+    sys.exit(rc)
